@@ -1,6 +1,7 @@
 (* Model/Run.v — glue between generated correspondence cases and the interpreter models:
    canonical observations and verdict functions.  Definitions only. *)
 From TSG Require Export Model.Strict Model.Regex.
+From TSG Require Import Model.Stdlib.
 
 (* canonical view of a graph: attributes sorted by name *)
 Definition canon_attrs (m : amap) : amap := sort_alist m.
@@ -33,32 +34,47 @@ Definition compare_outcome (m : outcome exec_error graph) (x : expect) : N :=
   | OutOfFuel, _ => 7
   end.
 
-(* temporary function library: only (node) *)
-Definition mini_call (f : ident) (g : graph) (args : list value) : res (value * graph) :=
-  if str_eqb f [110;111;100;101] then
-    match args with
-    | [] => let '(g', n) := add_graph_node g in Ok (VGraph n, g')
-    | _ => Err EInvalidParameters
-    end
-  else Err EUndefinedFunction.
+(* the function library of the execution streams: the stdlib model; `replace` uses the regex model
+   for the patterns listed in the case (non-nullable, without anchors, so that matching on the
+   remaining suffix coincides with the crate's replace_all) *)
+Fixpoint rx_replace_all (fuel : nat) (r : regex) (text rep : str) : str :=
+  match fuel with
+  | O => text
+  | S f =>
+      match rx_captures r text with
+      | Some (Some (a, b) :: _) =>
+          if N.ltb a b then firstn (N.to_nat a) text ++ rep ++ rx_replace_all f r (skipn (N.to_nat b) text) rep
+          else text
+      | _ => text
+      end
+  end.
+Fixpoint rx_table_get (pat : str) (l : list (str * regex)) : option regex :=
+  match l with [] => None | (p, r) :: l' => if str_eqb pat p then Some r else rx_table_get pat l' end.
+Definition table_oracle (table : list (str * regex)) : regex_oracle :=
+  fun text pat rep => match rx_table_get pat table with
+                      | Some r => Some (rx_replace_all (S (length text)) r text rep)
+                      | None => None
+                      end.
+Definition the_call (t : tree) (table : list (str * regex)) : ident -> graph -> list value -> res (value * graph) :=
+  stdlib_call (table_oracle table) t.
 
 Definition default_fuel : nat := 300.
 
 Definition graph_of {E} (r : outcome E (sstate * polls)) : outcome E graph :=
   match r with Ok (s, _) => Ok (s_graph s) | Err e => Err e | Panic p => Panic p | OutOfFuel => OutOfFuel end.
 
-Definition c01_verdict (t : tree) (fl : file) (rxs : list regex) (supplied : globals) (matches : list (list qmatch)) (x : expect) : N :=
-  compare_outcome (graph_of (run_strict t fl config0 supplied None rxs rx_captures mini_call default_fuel matches [])) x.
-Definition c01_detail (t : tree) (fl : file) (rxs : list regex) (supplied : globals) (matches : list (list qmatch)) :=
-  match run_strict t fl config0 supplied None rxs rx_captures mini_call default_fuel matches [] with
+Definition c01_verdict (t : tree) (fl : file) (rxs : list regex) (tbl : list (str * regex)) (supplied : globals) (matches : list (list qmatch)) (x : expect) : N :=
+  compare_outcome (graph_of (run_strict t fl config0 supplied None rxs rx_captures (the_call t tbl) default_fuel matches [])) x.
+Definition c01_detail (t : tree) (fl : file) (rxs : list regex) (tbl : list (str * regex)) (supplied : globals) (matches : list (list qmatch)) :=
+  match run_strict t fl config0 supplied None rxs rx_captures (the_call t tbl) default_fuel matches [] with
   | Ok (s, _) => Ok (canon_graph (s_graph s)) | Err e => Err e | Panic p => Panic p | OutOfFuel => OutOfFuel end.
 
 (* ---- lazy runs ---- *)
 From TSG Require Export Model.Lazy.
 Definition lgraph_of {E} (r : outcome E (lstate * polls)) : outcome E graph :=
   match r with Ok (s, _) => Ok (l_graph s) | Err e => Err e | Panic p => Panic p | OutOfFuel => OutOfFuel end.
-Definition lazy_verdict (t : tree) (fl : file) (rxs : list regex) (supplied : globals) (matches : list (N * qmatch)) (x : expect) : N :=
-  compare_outcome (lgraph_of (run_lazy t fl config0 supplied None rxs rx_captures mini_call default_fuel matches [])) x.
-Definition lazy_detail (t : tree) (fl : file) (rxs : list regex) (supplied : globals) (matches : list (N * qmatch)) :=
-  match run_lazy t fl config0 supplied None rxs rx_captures mini_call default_fuel matches [] with
+Definition lazy_verdict (t : tree) (fl : file) (rxs : list regex) (tbl : list (str * regex)) (supplied : globals) (matches : list (N * qmatch)) (x : expect) : N :=
+  compare_outcome (lgraph_of (run_lazy t fl config0 supplied None rxs rx_captures (the_call t tbl) default_fuel matches [])) x.
+Definition lazy_detail (t : tree) (fl : file) (rxs : list regex) (tbl : list (str * regex)) (supplied : globals) (matches : list (N * qmatch)) :=
+  match run_lazy t fl config0 supplied None rxs rx_captures (the_call t tbl) default_fuel matches [] with
   | Ok (s, _) => Ok (canon_graph (l_graph s)) | Err e => Err e | Panic p => Panic p | OutOfFuel => OutOfFuel end.
